@@ -1230,6 +1230,63 @@ func (x *runner) caseDial() {
 	}
 }
 
+// caseRunts (C06, "too short" clause at the reader): datagrams too short to carry anything — the empty
+// one included — reach a dialled session and a listener through the REAL read loops.  They must be
+// ignored and the loop must go on: the genuine datagram that follows is processed as usual.
+// (No op lines: the read loops are not part of the model; verdicts are implementation-side only.)
+func (x *runner) caseRunts() {
+	froms := []net.Addr{memnet.Addr("peer-x"), memnet.Addr("peer-y")}
+	for _, n := range []int{0, 1, 3, 11} {
+		// dialled session, any remote
+		conn := memnet.NewConn(memnet.Addr("client"))
+		conv := x.g.U32()
+		s, _ := kcp.NewConn3(conv, nil, nil, 0, 0, conn)
+		<-conn.Ready
+		x.o.Count(fmt.Sprintf("runt:dial:%d", n))
+		if !conn.Inject(make([]byte, n), froms[0]) {
+			x.viol("gate-runt-stops-reader", fmt.Sprintf("dialled session: a datagram of %d bytes ended the read loop", n))
+		} else {
+			c0 := memnet.ReadSnmp()
+			ok := conn.Inject(kcpSeg(conv, 81, 0, 32, 0, 0, 0, []byte{7}), froms[0])
+			if d := memnet.ReadSnmp().Sub(c0); !ok || d.InPkts != 1 {
+				x.viol("gate-runt-stops-reader", fmt.Sprintf("dialled session: after a datagram of %d bytes the next genuine datagram was not processed (delivered to the loop: %v, InPkts +%d)", n, ok, d.InPkts))
+			} else {
+				buf := make([]byte, 16)
+				s.SetReadDeadline(time.Now().Add(5 * time.Second))
+				if k, err := s.Read(buf); err != nil || k != 1 || buf[0] != 7 {
+					x.viol("gate-runt-stops-reader", fmt.Sprintf("dialled session: after a datagram of %d bytes Read returned %d, %v", n, k, err))
+				}
+			}
+		}
+		s.Close()
+		conn.Close()
+
+		// listener
+		lconn := memnet.NewConn(memnet.Addr("listener"))
+		l, err := kcp.ServeConn(nil, 0, 0, lconn)
+		if err != nil {
+			panic(err)
+		}
+		<-lconn.Ready
+		x.o.Count(fmt.Sprintf("runt:listener:%d", n))
+		if !lconn.Inject(make([]byte, n), froms[1]) {
+			x.viol("listener-gate-runt-stops-reader", fmt.Sprintf("listener: a datagram of %d bytes ended the monitor loop", n))
+		} else if !lconn.Inject(kcpSeg(conv, 81, 0, 32, 0, 0, 0, []byte{9}), froms[1]) {
+			x.viol("listener-gate-runt-stops-reader", fmt.Sprintf("listener: after a datagram of %d bytes the next genuine datagram was not taken by the monitor loop", n))
+		} else {
+			l.SetReadDeadline(time.Now().Add(5 * time.Second))
+			if as, err := l.AcceptKCP(); err != nil {
+				x.viol("listener-gate-runt-stops-reader", fmt.Sprintf("listener: after a datagram of %d bytes Accept returned %v although a genuine first datagram followed", n, err))
+			} else {
+				as.Close()
+			}
+		}
+		l.Close()
+		lconn.Close()
+		kcp.VerifListenerForget(l)
+	}
+}
+
 func Run(o *hx.Out, g *hx.Rng, tier string) {
 	memnet.InertScheduler()
 	kcp.SetEntropy(&memnet.RngReader{G: g.Fork()})
@@ -1265,4 +1322,5 @@ func Run(o *hx.Out, g *hx.Rng, tier string) {
 		}
 	}
 	x.caseDial()
+	x.caseRunts()
 }
